@@ -125,6 +125,7 @@ let prelude () =
            (if v then " volatile" else "") (match q with 0 -> "" | 1 -> " &" | _ -> " &&")
            (if ne then " noexcept" else "")))
     [false; true]) [false; true]) [0; 1; 2]) [false; true]) [false; true];
+  add "template <class U> constexpr bool dtor_ok = requires { std::declval<U&>().~U(); };";
   (* does X<T...> have a member `type` (SFINAE-friendly traits only) *)
   add "#define Z_HAS_TYPE(ns, tr) template <class... T> constexpr bool ns##_has_##tr = requires { typename ns::tr<T...>::type; };";
   (* lines tagged /*etl*/ are left out of the translation units that test std alone *)
@@ -411,6 +412,28 @@ let emit tier cfgs seed =
     if is_complete_object t then
       obl "prop" "alignment_of" key (sp "etl::alignment_of_v<%s> == std::alignment_of_v<%s> && etl::alignment_of<%s>::value == alignof(%s)" r r r r);
     List.iter (fun c -> obl "prop" ("concept " ^ c) key (sp "etl::%s<%s> == std::%s<%s>" c r c r)) prop_concepts_unary;
+    (* ---- composition traits: the library-computed argument types (ModelComp.v) *)
+    let ca = cxx (copy_ctor_arg_m t) and ma = cxx (move_ctor_arg_m t) and tg = cxx (assign_target_m t)
+    and cas = cxx (copy_assign_arg_m t) and mas = cxx (move_assign_arg_m t) in
+    List.iter (fun fam ->
+        let pre = if fam = "" then "is_" else "is_" ^ fam ^ "_" in
+        if fam <> "trivially" then
+          obl "corr" (pre ^ "copy_constructible (composition)") key (sp "etl::%scopy_constructible_v<%s> == etl::%sconstructible_v<%s, %s>" pre r pre r ca);
+        obl "corr" (pre ^ "move_constructible (composition)") key (sp "etl::%smove_constructible_v<%s> == etl::%sconstructible_v<%s, %s>" pre r pre r ma);
+        obl "corr" (pre ^ "default_constructible (composition)") key (sp "etl::%sdefault_constructible_v<%s> == etl::%sconstructible_v<%s>" pre r pre r);
+        obl "corr" (pre ^ "copy_assignable (composition)") key (sp "etl::%scopy_assignable_v<%s> == etl::%sassignable_v<%s, %s>" pre r pre tg cas);
+        obl "corr" (pre ^ "move_assignable (composition)") key (sp "etl::%smove_assignable_v<%s> == etl::%sassignable_v<%s, %s>" pre r pre tg mas);
+        (* the standard's wording against std *)
+        let rf = referenceable t in
+        let sc = cxx (std_const_lref t) and sr = cxx (std_rref t) and sl = cxx (std_lref t) in
+        obl "specval" (pre ^ "copy_constructible (composition)") key (sp "std::%scopy_constructible_v<%s> == (%s && std::%sconstructible_v<%s, %s>)" pre r (bs rf) pre r sc);
+        obl "specval" (pre ^ "move_constructible (composition)") key (sp "std::%smove_constructible_v<%s> == (%s && std::%sconstructible_v<%s, %s>)" pre r (bs rf) pre r sr);
+        obl "specval" (pre ^ "copy_assignable (composition)") key (sp "std::%scopy_assignable_v<%s> == (%s && std::%sassignable_v<%s, %s>)" pre r (bs rf) pre sl sc);
+        obl "specval" (pre ^ "move_assignable (composition)") key (sp "std::%smove_assignable_v<%s> == (%s && std::%sassignable_v<%s, %s>)" pre r (bs rf) pre sl sr))
+      [ ""; "nothrow"; "trivially" ];
+    let dexpr = function DFalse -> "false" | DTrue -> "true" | DAsk u -> sp "z::dtor_ok<%s>" (cxx u) in
+    obl "corr" "is_destructible (library)" key (sp "etl::is_destructible_v<%s> == %s" r (dexpr (is_destructible_q k t)));
+    obl "specval" "is_destructible (library)" key (sp "std::is_destructible_v<%s> == %s" r (dexpr (std_is_destructible_q t)));
     (* the recorded findings, pinned to their exact wrong behaviour (a finding suppresses the comparison with
        std only; any OTHER behaviour of these facilities still fails here) *)
     obl "corr" "recorded: is_trivially_copy_constructible" key
@@ -517,8 +540,8 @@ let emit tier cfgs seed =
       "index_of", "etl::meta::index_of_v<char, etl::meta::list<int, char, long>> == 1 && etl::meta::index_of_v<int, etl::meta::list<int, char, long>> == 0" ];
   (* ---- a fixed family of classes related by inheritance (the generated classes have no bases):
           public, private, virtual, ambiguous (diamond without virtual) and indirect bases *)
-  line [ "H"; "namespace zb { struct B { int b; }; struct D : B { }; struct P : private B { }; struct V : virtual B { }; struct A1 : B { }; struct A2 : B { }; struct M : A1, A2 { }; struct I : D { }; struct Poly { virtual ~Poly(); }; struct PD : Poly { }; union U { int u; }; struct Conv { operator B() const; operator int() const noexcept; }; struct Expl { explicit Expl(B const&); Expl(int) noexcept; }; }" ];
-  let fam = [ "zb::B"; "zb::D"; "zb::P"; "zb::V"; "zb::A1"; "zb::M"; "zb::I"; "zb::Poly"; "zb::PD"; "zb::U"; "zb::Conv"; "zb::Expl";
+  line [ "H"; "namespace zb { struct B { int b; }; struct D : B { }; struct P : private B { }; struct V : virtual B { }; struct A1 : B { }; struct A2 : B { }; struct M : A1, A2 { }; struct I : D { }; struct Poly { virtual ~Poly(); }; struct PD : Poly { }; union U { int u; }; struct Conv { operator B() const; operator int() const noexcept; }; struct Expl { explicit Expl(B const&); Expl(int) noexcept; }; struct NC { NC(); NC(NC&); NC& operator=(NC&); }; struct MO { MO(MO&&) noexcept; MO& operator=(MO&&); }; struct PDt { private: ~PDt(); }; struct TDt { ~TDt() noexcept(false); }; }" ];
+  let fam = [ "zb::B"; "zb::D"; "zb::P"; "zb::V"; "zb::A1"; "zb::M"; "zb::I"; "zb::Poly"; "zb::PD"; "zb::U"; "zb::Conv"; "zb::Expl"; "zb::NC"; "zb::MO"; "zb::PDt"; "zb::TDt";
               "zb::D const"; "zb::B volatile"; "int"; "void" ] in
   List.iter (fun x -> List.iter (fun y ->
       let key = x ^ " ; " ^ y in
@@ -534,8 +557,10 @@ let emit tier cfgs seed =
       end) fam) fam;
   List.iter (fun x ->
       List.iter (fun tr -> obl "prop" (tr ^ " (inheritance)") x (sp "etl::%s_v<%s> == std::%s_v<%s>" tr x tr x))
-        [ "is_polymorphic"; "is_empty"; "is_aggregate"; "is_standard_layout"; "is_trivially_copyable"; "has_virtual_destructor";
-          "is_abstract"; "is_final"; "is_class"; "is_union"; "is_default_constructible"; "is_trivially_destructible" ])
+        (List.filter (fun tr -> tr <> "is_trivially_copy_constructible") prop_unary);
+      List.iter (fun sfx -> obl "prop" "unary traits on arrays / references (inheritance)" (x ^ sfx)
+                    (sp "etl::is_destructible_v<%s%s> == std::is_destructible_v<%s%s> && etl::is_nothrow_destructible_v<%s%s> == std::is_nothrow_destructible_v<%s%s> && etl::is_copy_constructible_v<%s%s> == std::is_copy_constructible_v<%s%s> && etl::is_move_assignable_v<%s%s> == std::is_move_assignable_v<%s%s> && etl::is_trivially_destructible_v<%s%s> == std::is_trivially_destructible_v<%s%s>" x sfx x sfx x sfx x sfx x sfx x sfx x sfx x sfx x sfx x sfx))
+        (List.filter (fun sfx -> not (sfx = " const" && x = "zb::D const")) [ "[2]"; "[2][3]"; "&"; "&&"; " const"; "*" ]))
     (List.filter (fun x -> x <> "void" && x <> "int") fam);
   (* ---- aligned_storage<Len>: "default-alignment shall be the most stringent alignment requirement for any
           C++ object type whose size is no greater than Len" ([meta.trans.other]); libstdc++ over-aligns (16 for
